@@ -117,9 +117,71 @@ func (f *Facts) ownerCell(v ssa.Value) *ssa.Alloc {
 				return nil
 			}
 			v = b
+		case *ssa.Parameter:
+			// a pointer to a variable of the (only) caller: `func addSteps(..., err *error)` called with `&err`
+			if a := f.cellArgOf(x); a != nil {
+				return a
+			}
+			return nil
+		case *ssa.UnOp:
+			// the pointer parameter spilled into a cell of its own because closures capture it
+			if x.Op != token.MUL {
+				return nil
+			}
+			var pc *ssa.Alloc
+			switch y := x.X.(type) {
+			case *ssa.Alloc:
+				pc = y
+			case *ssa.FreeVar:
+				if b, ok := f.bindings[y]; ok {
+					pc, _ = b.(*ssa.Alloc)
+					if pc == nil {
+						if fv2, ok := b.(*ssa.FreeVar); ok {
+							pc = f.ownerCell(fv2)
+						}
+					}
+				}
+			}
+			if pc == nil {
+				return nil
+			}
+			var par *ssa.Parameter
+			n := 0
+			for _, ref := range nonDebugRefs(pc) {
+				if st, ok := ref.(*ssa.Store); ok && st.Addr == ssa.Value(pc) {
+					n++
+					par, _ = st.Val.(*ssa.Parameter)
+				}
+			}
+			if n != 1 || par == nil {
+				return nil
+			}
+			return f.cellArgOf(par)
 		default:
 			return nil
 		}
+	}
+	return nil
+}
+
+// cellArgOf: the parameter is a pointer that its function's only caller fills with the address of one of its own
+// variables: that variable.
+func (f *Facts) cellArgOf(p *ssa.Parameter) *ssa.Alloc {
+	if _, isPtr := p.Type().Underlying().(*types.Pointer); !isPtr {
+		return nil
+	}
+	args := f.argsOf[p]
+	if len(args) != 1 {
+		return nil
+	}
+	switch a := args[0].(type) {
+	case *ssa.Alloc:
+		if _, isStruct := a.Type().Underlying().(*types.Pointer).Elem().Underlying().(*types.Struct); isStruct {
+			return nil // a pointer to an object, not to a variable
+		}
+		return a
+	case *ssa.FreeVar:
+		return f.ownerCell(a)
 	}
 	return nil
 }
@@ -275,6 +337,19 @@ func (f *Facts) storesToCell(a *ssa.Alloc) []ssa.Value {
 	}
 	if a.Parent() != nil {
 		scan(a.Parent())
+		// functions the variable's address is handed to (step-registration helpers taking `&err`): their stores
+		// through the pointer parameter are stores to the variable
+		seenFn := map[*ssa.Function]bool{a.Parent(): true}
+		for _, ref := range nonDebugRefs(a) {
+			c, ok := ref.(ssa.CallInstruction)
+			if !ok {
+				continue
+			}
+			if g := calleeOf(c); g != nil && g.Blocks != nil && !seenFn[g] && g.Pkg == a.Parent().Pkg {
+				seenFn[g] = true
+				scan(g)
+			}
+		}
 	}
 	return out
 }
